@@ -16,6 +16,11 @@ operation by the judge `judge-c07-trace`:
   * `disciplined steps`   : cache files are deleted only for ids without a committed row, written only
                             for such ids or for rows that can be re-downloaded, and a transaction that
                             inserts a row commits only after the complete file is in the store.
+  * `handlerOk steps handler i` : the operation's error handler, run after step `i` failed and the transaction was
+                            rolled back, keeps the same store discipline (fail_listed_is_cached); decided for every
+                            modelled instance and every `i` (`modelled_handlerOk`), evaluated on the recorded traces of
+                            the runs with an injected error by the judge `judge-c07-fail`, and tied to the source of the
+                            clean-up loop by `source_cleanup_ranges_over_new`.
 That the model's step lists ARE the real ones is the trace correspondence (dialect `c07trace`).
 -/
 import GluonModel.Lemmas.Crash
@@ -88,19 +93,20 @@ theorem fail_atomic_partial (steps handler : List Step) (s : St) (i : Nat)
   simp only [List.flatten_nil, List.append_nil]
   exact ⟨hb, hb⟩
 
-theorem handler_invisible (op : String) (hne : op ≠ "append") (i : Nat) : HandlerInvisible (handlerOf op i) := by
+theorem handler_invisible (op : String) (hne : op ≠ "append") (inst i : Nat) : HandlerInvisible (handlerOf op inst i) := by
   unfold handlerOf HandlerInvisible
   rw [if_neg hne]
-  split <;> rfl
+  repeat' split
+  all_goals rfl
 
 /-- **fail_atomic** for every modelled operation except APPEND, at every step. -/
 theorem fail_atomic_ops (o : String × Nat) (ho : o ∈ modelled) (hne : o.1 ≠ "append") (s : St) (i : Nat)
     (htx : s.tx = none) :
-    (abs (failAt i (stepsOf! o) (handlerOf o.1 i) s) = abs s ∨
-      abs (failAt i (stepsOf! o) (handlerOf o.1 i) s) = abs (run (stepsOf! o) s)) ∧
-    (abs (recover (failAt i (stepsOf! o) (handlerOf o.1 i) s)) = abs s ∨
-      abs (recover (failAt i (stepsOf! o) (handlerOf o.1 i) s)) = abs (run (stepsOf! o) s)) :=
-  fail_atomic_partial _ _ s i (modelled_oneVisibleTx o ho) htx (handler_invisible o.1 hne i)
+    (abs (failAt i (stepsOf! o) (handlerOf o.1 o.2 i) s) = abs s ∨
+      abs (failAt i (stepsOf! o) (handlerOf o.1 o.2 i) s) = abs (run (stepsOf! o) s)) ∧
+    (abs (recover (failAt i (stepsOf! o) (handlerOf o.1 o.2 i) s)) = abs s ∨
+      abs (recover (failAt i (stepsOf! o) (handlerOf o.1 o.2 i) s)) = abs (run (stepsOf! o) s)) :=
+  fail_atomic_partial _ _ s i (modelled_oneVisibleTx o ho) htx (handler_invisible o.1 hne o.2 i)
 
 /-- **fail_atomic is FALSE for APPEND** (the full statement "before or after" does not hold): a step of
     `AppendRegular` fails AFTER its transaction committed (the second transaction of `stateDBWrite`, index
@@ -110,9 +116,9 @@ theorem fail_atomic_ops (o : String × Nat) (ho : o ∈ modelled) (hne : o.1 ≠
 theorem fail_atomic_append_counterexample :
     let steps := stepsOf! ("append", 0)
     let s : St := {}
-    abs (failAt 15 steps (handlerOf "append" 15) s) ≠ abs s ∧
-    abs (failAt 15 steps (handlerOf "append" 15) s) ≠ abs (run steps s) ∧
-    abs (failAt 15 steps (handlerOf "append" 15) s) = abs (run steps s) ++ ["CreateMessageAndAddToMailbox"] := by
+    abs (failAt 15 steps (handlerOf "append" 0 15) s) ≠ abs s ∧
+    abs (failAt 15 steps (handlerOf "append" 0 15) s) ≠ abs (run steps s) ∧
+    abs (failAt 15 steps (handlerOf "append" 0 15) s) = abs (run steps s) ++ ["CreateMessageAndAddToMailbox"] := by
   decide
 
 /-- what does hold for a failing APPEND, at every step: the other mailboxes are in the before- or
@@ -120,12 +126,12 @@ theorem fail_atomic_append_counterexample :
     (none if the failure precedes `AppendRegular`). -/
 theorem fail_append_recovered (inst : Nat) (hi : inst < 3) (s : St) (i : Nat) (htx : s.tx = none) :
     ∃ base, (base = abs s ∨ base = abs (run (stepsOf! ("append", inst)) s)) ∧
-      (abs (recover (failAt i (stepsOf! ("append", inst)) (handlerOf "append" i) s)) = base ∨
-       abs (recover (failAt i (stepsOf! ("append", inst)) (handlerOf "append" i) s)) = base ++ ["CreateMessageAndAddToMailbox"]) := by
+      (abs (recover (failAt i (stepsOf! ("append", inst)) (handlerOf "append" inst i) s)) = base ∨
+       abs (recover (failAt i (stepsOf! ("append", inst)) (handlerOf "append" inst i) s)) = base ++ ["CreateMessageAndAddToMailbox"]) := by
   have hm : ("append", inst) ∈ modelled := by
     have : inst = 0 ∨ inst = 1 ∨ inst = 2 := by omega
     rcases this with h | h | h <;> subst h <;> decide
-  obtain ⟨base, hb, _, h2⟩ := fail_decompose (stepsOf! ("append", inst)) (handlerOf "append" i) s i
+  obtain ⟨base, hb, _, h2⟩ := fail_decompose (stepsOf! ("append", inst)) (handlerOf "append" inst i) s i
     (modelled_oneVisibleTx _ hm) htx
   refine ⟨base, hb, ?_⟩
   rw [h2]
@@ -205,6 +211,70 @@ theorem listed_is_fetchable_needs_discipline :
   have := h { id := .old 1, remote := false, lit := 7 } (by decide)
   revert this; decide
 
+/-! ### every listed message keeps its cache file (nothing is left to the connector) -/
+
+/-- **listed_is_cached** (generic). For an operation that re-downloads nothing: if every row had its complete
+    cache file with the acknowledged literal and the step list keeps the store discipline, then after death at ANY
+    boundary and restart every row still has it - the bytes of a listed message never depend on what the connector
+    can still serve. -/
+theorem listed_is_cached (steps : List Step) (s : St) (i : Nat)
+    (hdisc : disciplined steps [] = true) (hfresh : FreshNew s) (htx : s.tx = none) (hinv : AllCached s) :
+    AllCached (recover (crashAfter i steps s)) := by
+  apply recover_cached
+  apply crash_cached
+  exact (run_cached _ _ s (rel_init s [] hfresh htx (by intro id hid; simp at hid)) rfl hinv
+    (disciplinedFrom_take steps _ i hdisc)).2
+
+/-- **fail_listed_is_cached** (generic). The same when step `i` returns an error and the operation's error handler runs
+    after the roll-back, PROVIDED the handler keeps the store discipline (`handlerOk`: it deletes / overwrites cache
+    files only of ids without a committed row) - live and after a restart. -/
+theorem fail_listed_is_cached (steps handler : List Step) (s : St) (i : Nat)
+    (hdisc : disciplined steps [] = true) (hh : handlerOk steps handler i [] = true)
+    (hfresh : FreshNew s) (htx : s.tx = none) (hinv : AllCached s) :
+    AllCached (failAt i steps handler s) ∧ AllCached (recover (failAt i steps handler s)) := by
+  have h := fail_cached steps handler s i hdisc hh hfresh htx hinv
+  exact ⟨h, recover_cached _ h⟩
+
+/-- structural fact 3 holds for every modelled operation instance, EVERY failing step and the handler the model
+    gives the operation there (the recovery insertion of APPEND, the cache clean-up of connector-created messages -
+    which ranges over the NEW messages of the update only) -/
+theorem modelled_handlerOk : ∀ o ∈ modelled, ∀ i ∈ List.range ((stepsOf! o).length + 1),
+    handlerOk (stepsOf! o) (handlerOf o.1 o.2 i) i (redlOf o.1) = true := by decide
+
+/-- **fail_listed_is_cached** for every modelled operation instance (except the re-download itself), at every step:
+    an injected error anywhere leaves every listed message with its complete cache file, also the messages the
+    operation only NAMES (a connector update that mentions a message the server already had). -/
+theorem fail_listed_is_cached_ops (o : String × Nat) (ho : o ∈ modelled) (hne : o.1 ≠ "redownload") (s : St) (i : Nat)
+    (hi : i ≤ (stepsOf! o).length) (hfresh : FreshNew s) (htx : s.tx = none) (hinv : AllCached s) :
+    AllCached (failAt i (stepsOf! o) (handlerOf o.1 o.2 i) s) ∧
+    AllCached (recover (failAt i (stepsOf! o) (handlerOf o.1 o.2 i) s)) := by
+  have hr : redlOf o.1 = [] := by simp [redlOf, hne]
+  have hd := modelled_disciplined o ho
+  have hh := modelled_handlerOk o ho i (List.mem_range.mpr (by omega))
+  rw [hr] at hd hh
+  exact fail_listed_is_cached _ _ s i hd hh hfresh htx hinv
+
+theorem listed_is_cached_ops (o : String × Nat) (ho : o ∈ modelled) (hne : o.1 ≠ "redownload") (s : St) (i : Nat)
+    (hfresh : FreshNew s) (htx : s.tx = none) (hinv : AllCached s) :
+    AllCached (recover (crashAfter i (stepsOf! o) s)) := by
+  have hr : redlOf o.1 = [] := by simp [redlOf, hne]
+  have hd := modelled_disciplined o ho
+  rw [hr] at hd
+  exact listed_is_cached _ s i hd hfresh htx hinv
+
+/-- the handler's discipline is needed: a clean-up that ranges over EVERY message named in a failed connector update
+    (instead of the new ones) deletes the cache file of a message the server already had; the roll-back keeps its row,
+    so the message stays listed and its bytes are gone. (`connector MessagesCreated c1 -> mb2` with c1 known, the
+    look-up of the mailbox fails.) -/
+theorem fail_listed_is_cached_needs_handlerOk :
+    let s : St := { db := { rows := [{ id := .old 1, lit := litOf (.old 1) }] },
+                    store := fun id => if id = .old 1 then some (.complete (litOf (.old 1))) else none }
+    let steps := stepsOf! ("cknown", 0)
+    AllCached s ∧ FreshNew s ∧ disciplined steps [] = true ∧
+    handlerOk steps [.del [.old 1]] 2 [] = false ∧
+    ¬ AllCached (failAt 2 steps [.del [.old 1]] s) ∧ ¬ AllCached (recover (failAt 2 steps [.del [.old 1]] s)) := by
+  refine ⟨by decide, fun _ => rfl, by decide, by decide, by decide, by decide⟩
+
 /-! ### left-overs -/
 
 /-- **leftovers_removed**: after start-up, whatever the state the dead process (or a failed operation)
@@ -264,6 +334,25 @@ theorem source_store_before_row :
     callsOf "stateDBWrite" = ["db.Write", "db.Write", "call.QueueOrApplyStateUpdate"] := by
   decide
 
+/-- the collection the cache clean-up of `fn` ranges over (first such loop) -/
+def cleanupColl (fn : String) : String := (Gluon.Facts.crashCleanupLoops.lookup fn).getD ""
+
+/-- the if-conditions around every statement of `fn` that makes `coll` grow -/
+def growthGuards (fn coll : String) : List (List String) :=
+  Gluon.Facts.crashGrowthSites.filterMap fun p => if p.1 == fn && p.2.1 == coll then some p.2.2 else none
+
+/-- the clean-up after a failed MessagesCreated transaction (`handlerOf "ccreate"` / `"cknown"`: delete the files of
+    the NEW ids only) in the source: `applyMessagesCreated` has exactly one loop that deletes cache files, and the
+    collection it ranges over grows only under `db.IsErrNotFound(err)` - i.e. it receives a message only when the
+    database did not know its remote id. A clean-up over every message NAMED in the update does not pass
+    (`fail_listed_is_cached_needs_handlerOk` is what it would do). -/
+theorem source_cleanup_ranges_over_new :
+    let fn := "user.applyMessagesCreated"
+    (Gluon.Facts.crashCleanupLoops.filter (·.1 == fn)).length = 1 ∧
+    growthGuards fn (cleanupColl fn) ≠ [] ∧
+    ∀ g ∈ growthGuards fn (cleanupColl fn), "db.IsErrNotFound(err)" ∈ g := by
+  decide
+
 /-- the step list `startup` (tied to the real start-up by the trace dialect) computes `recover` on a
     state with a marked row, its file, and nothing stale -/
 theorem startup_steps_are_recover :
@@ -302,6 +391,23 @@ example : (recover sample).store (.old 7) = none ∧ (recover sample).store (.ol
 example : (crashAfter 11 (stepsOf! ("append", 0)) sample).store (.new 1) = some .partialF ∧
     (recover (crashAfter 11 (stepsOf! ("append", 0)) sample)).store (.new 1) = none := by decide
 
-example : HandlerInvisible (handlerOf "ccreate" 3) ∧ ¬ HandlerInvisible (handlerOf "append" 9) := by decide
+example : HandlerInvisible (handlerOf "ccreate" 0 3) ∧ ¬ HandlerInvisible (handlerOf "append" 0 9) := by decide
+
+/-- the clean-up after a failed connector update is a real handler in the model: it removes the file of the NEW message
+    (and only that one), and only when the failing step lies inside the update's transaction -/
+example : handlerOf "ccreate" 0 5 = [.del [.new 1]] ∧ handlerOf "ccreate" 0 1 = [] ∧ handlerOf "ccreate" 0 11 = [] ∧
+    handlerOf "cknown" 1 6 = [.del [.new 1]] ∧ handlerOf "cknown" 0 3 = [] := by decide
+
+/-- `fail_listed_is_cached` is not vacuous: a state with two acknowledged messages, both cached; after the failure of the
+    store write of the batch's new message and the clean-up both are still cached, and the new file is gone -/
+example :
+    let s : St := { db := { rows := [{ id := .old 1, lit := litOf (.old 1) }, { id := .old 2, remote := false, lit := 9 }] },
+                    store := fun id => if id = .old 1 then some (.complete (litOf (.old 1)))
+                                       else if id = .old 2 then some (.complete 9) else none }
+    AllCached s ∧ FreshNew s ∧
+    (crashAfter 7 (stepsOf! ("cknown", 1)) s).store (.new 1) = some .partialF ∧
+    (failAt 7 (stepsOf! ("cknown", 1)) (handlerOf "cknown" 1 7) s).store (.new 1) = none ∧
+    AllCached (failAt 7 (stepsOf! ("cknown", 1)) (handlerOf "cknown" 1 7) s) := by
+  refine ⟨by decide, fun _ => rfl, by decide, by decide, by decide⟩
 
 end Gluon.C07
